@@ -308,7 +308,7 @@ def explore(tier, seed):
     for st in core.pmap(bb_shard, shards, 4):
         total.merge(st)
     bb_evals = total.evaluations
-    ctxlen = 3 if tier == "quick" else 4
+    ctxlen = 4 if tier == "quick" else 5
     cshards = [(c, f, ctxlen) for c in CONTEXTS for f in SIGMA]
     for st in core.pmap(ctx_shard, cshards, 2):
         total.merge(st)
